@@ -1,6 +1,8 @@
 (* line protocol (one session per line):
      <prestamp 0|1> <override 0|1> <cmax> <k1> <k2> <r1> <r2> [<later> ...]
    k1 / k2: number of KEEPALIVEs the reader sends while the query / the switch is unanswered
+            (acknowledged at once); written <k>+<d> when d more are sent by a reader that does not
+            read from then until the client has acted on the answer that follows them
    reaction  r ::= R:<cb>:<mb>:<st> | E:<st> | W:<typ> | O | G | N
    later     l ::= Q<typ>:<hexpayload or empty>    a request is written
                  | A                               a KEEPALIVE is acknowledged
@@ -8,6 +10,7 @@
                                                    the answer the caller of the last request gets: success, status st
                                                    in the expected response / in an ERROR_MESSAGE, wrong type, none
    answer:   <proceeds|fails> <version> <neg frames> <later frames>
+             (later frames: what was left over from negotiation, then the traffic)
    frames ::= - | f,f,...   with f = <ver>:<typ>:<hex payload> *)
 open Model
 
@@ -64,7 +67,12 @@ let () =
           | ps :: ov :: cmax :: k1 :: k2 :: r1 :: r2 :: ls ->
             let cfg = { prestamp = (ps = "1"); writer_overrides = (ov = "1") } in
             let rec nat_of_int i = if i <= 0 then O else S (nat_of_int (i - 1)) in
-            let (r, ps) = session_post cfg (ni cmax) (nat_of_int (int_of_string k1)) (nat_of_int (int_of_string k2))
+            let kd s = match String.split_on_char '+' s with
+              | [k] -> (nat_of_int (int_of_string k), O)
+              | [k; d] -> (nat_of_int (int_of_string k), nat_of_int (int_of_string d))
+              | _ -> failwith ("bad keep-alive count " ^ s) in
+            let (k1, d1) = kd k1 and (k2, d2) = kd k2 in
+            let (r, ps) = session_kd cfg (ni cmax) k1 d1 k2 d2
                 (reaction r1) (reaction r2) (List.map later ls) in
             let lf = ps.p_out in
             Printf.printf "%s %d %s %s\n"
